@@ -11,7 +11,7 @@ import (
 
 func init() {
 	register("C19", propMeta{
-		Explanation: "E-TAINT + E-LOCK + E-CONST. O-1: in printMetrics every uint event counter of Metrics reaches the logger only as binCount(field); binCount has the ceil-to-8 shape (same constant 8 in the quotient and the product, Ceil not Floor/Round, or the integer form ((x+7)/8)*8); the sets 'counters incremented' = 'counters printed' = 'counters reset' agree, and the per-country maps created in NewMetrics are the ones reset. O-2: the rounded Prometheus counter's (total, value) pair is read and written only under its own mutex, inside one critical section per Inc, never through sync/atomic mixed with plain access, and value grows by the constant 8 only on the total > value edge. O-3: UpdateCountryStats/RecordIPAddress run with Metrics.lock in their entry lockset and every per-country count change lies behind the 'address not seen yet' edges. O-4: in ipsetsink the raw address reaches the sketch only through the keyed HMAC. O-5: the journal window predicate compares RecordingStart with from and RecordingEnd with to. Each is a necessary condition: e.g. a counter printed raw publishes a non-multiple of 8; a non-atomic pair publishes a value below the truth for some schedule. Added after the second seeding round: O-1d the matched figures (clientProxyMatchCount, ClientPollTotal{status=matched}) are incremented only on the edge on which the proxy's answer was received; O-5b every journal line is decoded into a record and a sketch created in that iteration; O-5c the journal reader uses no length-limited line scanner, or returns its Err() (D19). Added after the third seeding round: O-1e the guarded-by rows of Metrics and CountryStats are evaluated here too (an increment outside metrics.lock can be lost, publishing a count below the truth); O-4b RecordIPAddress is called from ProxyPolls itself on every path that updates the country statistics, and WriteIPSetToDisk resets the sketch and advances lastWriteTime on every way out after the chunk was written; O-4 no longer names maskIPAddress: the value added to the sketch must derive from hmac.New(_, ipMaskingKey).Sum. Added after the fourth seeding round: O-1 follows each counter forward (taint analysis through tables, helpers and loops) to the logger, binCount being the only sanitiser; O-1f every decoded poll increments one of the two relay-extension counters on every path; O-4 the bytes written to the HMAC are the address string itself.",
+		Explanation: "E-TAINT + E-LOCK + E-CONST. O-1: in printMetrics every uint event counter of Metrics reaches the logger only as binCount(field); binCount has the ceil-to-8 shape (same constant 8 in the quotient and the product, Ceil not Floor/Round, or the integer form ((x+7)/8)*8); the sets 'counters incremented' = 'counters printed' = 'counters reset' agree, and the per-country maps created in NewMetrics are the ones reset. O-2: the rounded Prometheus counter's (total, value) pair is read and written only under its own mutex, inside one critical section per Inc, never through sync/atomic mixed with plain access, and value grows by the constant 8 only on the total > value edge. O-3: UpdateCountryStats/RecordIPAddress run with Metrics.lock in their entry lockset and every per-country count change lies behind the 'address not seen yet' edges. O-4: in ipsetsink the raw address reaches the sketch only through the keyed HMAC. O-5: the journal window predicate compares RecordingStart with from and RecordingEnd with to. Each is a necessary condition: e.g. a counter printed raw publishes a non-multiple of 8; a non-atomic pair publishes a value below the truth for some schedule. Added after the second seeding round: O-1d the matched figures (clientProxyMatchCount, ClientPollTotal{status=matched}) are incremented only on the edge on which the proxy's answer was received; O-5b every journal line is decoded into a record and a sketch created in that iteration; O-5c the journal reader uses no length-limited line scanner, or returns its Err() (D19). Added after the third seeding round: O-1e the guarded-by rows of Metrics and CountryStats are evaluated here too (an increment outside metrics.lock can be lost, publishing a count below the truth); O-4b RecordIPAddress is called from ProxyPolls itself on every path that updates the country statistics, and WriteIPSetToDisk resets the sketch and advances lastWriteTime on every way out after the chunk was written; O-4 no longer names maskIPAddress: the value added to the sketch must derive from hmac.New(_, ipMaskingKey).Sum. Added after the fourth seeding round: O-1 follows each counter forward (taint analysis through tables, helpers and loops) to the logger, binCount being the only sanitiser; O-1f every decoded poll increments one of the two relay-extension counters on every path; O-4 the bytes written to the HMAC are the address string itself. Added after the fifth seeding round: O-1g the per-type report and its total range over countryStats.proxies itself; the nat label of ProxyPollTotal{status=matched} is the NAT type decoded from this poll; ClusterWriter.AddIPToSet adds the address to the current sketch on every path.",
 		NotDecided:  "floating-point exactness of binCount beyond 2^53, HyperLogLog accuracy, which events should be counted, the arithmetic correctness of rounding for all histories (only its shape is decided).",
 		Assumptions: []string{"math.Ceil, crypto/hmac and hyperloglog behave as documented", "lock identity is (type, field)"},
 	}, runC19)
@@ -96,37 +96,7 @@ func runC19(c *Ctx) {
 		fmt.Sprintf("%d counters: %v", len(printed), sortedKeys(printed)),
 		fmt.Sprintf("incremented %v, printed %v, reset %v differ: a counted event is never published, or a published counter is never reset", sortedKeys(incremented), sortedKeys(printed), sortedKeys(reset)))
 	// maps created in NewMetrics = maps reset in zeroMetrics
-	csT := p.Type("broker", "CountryStats")
-	if csT != nil {
-		created, zeroed := map[string]bool{}, map[string]bool{}
-		cst := csT.Underlying().(*types.Struct)
-		for i := 0; i < cst.NumFields(); i++ {
-			f := cst.Field(i)
-			if _, ok := f.Type().Underlying().(*types.Map); !ok {
-				continue
-			}
-			for _, s := range storesToField([]*ssa.Function{newM}, f) {
-				if _, ok := s.Val.(*ssa.MakeMap); ok {
-					created[f.Name()] = true
-				}
-			}
-			for _, s := range storesToField([]*ssa.Function{zeroM}, f) {
-				if _, ok := s.Val.(*ssa.MakeMap); ok {
-					zeroed[f.Name()] = true
-				}
-			}
-			// proxies is reset entry by entry
-			if f.Name() == "proxies" {
-				for _, a := range accessesOfField([]*ssa.Function{zeroM}, f, true) {
-					if a.What == "map update" {
-						zeroed[f.Name()] = true
-					}
-				}
-			}
-		}
-		c.check(sameStringSet(sortedKeys(created), sortedKeys(zeroed)), "O-1c counter sets agree", "per-period maps created = maps reset", p.Pos(zeroM.Pos()),
-			fmt.Sprintf("%v", sortedKeys(created)), fmt.Sprintf("created %v but reset %v", sortedKeys(created), sortedKeys(zeroed)))
-	}
+	c.checkCountryMapsReset(newM, zeroM)
 
 	// ---- O-2: rounded counter ----
 	var rcRows []guardRow
@@ -246,6 +216,7 @@ func runC19(c *Ctx) {
 	c.checkJournalFeeding()
 	// ---- O-1f: every decoded poll is counted as with or without the relay-URL extension ----
 	c.checkEveryPollClassified()
+	c.checkReportCoversAllTypes()
 	// ---- O-5: window predicate orientation ----
 	c.checkWindowPredicate()
 	// ---- O-5c: the journal is read to its end or the reader says so ----
@@ -841,4 +812,105 @@ func (c *Ctx) checkEveryPollClassified() {
 		}
 	}
 	c.check(good, rule, "ProxyPolls counts every decoded poll in one of the two counters", p.instrPos(dec), "on every path from the successful decode", "a decoded poll can be answered without having been counted as with or without the extension (for example a poll whose pattern is rejected): the published counts are below the number of polls", p.pathString(wp)...)
+}
+
+// checkCountryMapsReset: every map of CountryStats that NewMetrics creates is
+// re-created (or emptied entry by entry) by zeroMetrics: a map left nil by the
+// rotation makes the next update of that map panic (assignment to entry in nil
+// map) with the metrics lock held.
+func (c *Ctx) checkCountryMapsReset(newM, zeroM *ssa.Function) {
+	p := c.P
+	csT := p.Type("broker", "CountryStats")
+	if csT == nil || newM == nil || zeroM == nil {
+		return
+	}
+	{
+		created, zeroed := map[string]bool{}, map[string]bool{}
+		cst := csT.Underlying().(*types.Struct)
+		for i := 0; i < cst.NumFields(); i++ {
+			f := cst.Field(i)
+			if _, ok := f.Type().Underlying().(*types.Map); !ok {
+				continue
+			}
+			for _, s := range storesToField([]*ssa.Function{newM}, f) {
+				if _, ok := s.Val.(*ssa.MakeMap); ok {
+					created[f.Name()] = true
+				}
+			}
+			for _, s := range storesToField([]*ssa.Function{zeroM}, f) {
+				if _, ok := s.Val.(*ssa.MakeMap); ok {
+					zeroed[f.Name()] = true
+				}
+			}
+			// proxies is reset entry by entry
+			if f.Name() == "proxies" {
+				for _, a := range accessesOfField([]*ssa.Function{zeroM}, f, true) {
+					if a.What == "map update" {
+						zeroed[f.Name()] = true
+					}
+				}
+			}
+		}
+		c.check(sameStringSet(sortedKeys(created), sortedKeys(zeroed)), "O-1c counter sets agree", "per-period maps created = maps reset", p.Pos(zeroM.Pos()),
+			fmt.Sprintf("%v", sortedKeys(created)), fmt.Sprintf("created %v but reset %v", sortedKeys(created), sortedKeys(zeroed)))
+	}
+
+}
+
+// checkReportCoversAllTypes: (a) the per-type unique-address lines and the total
+// of printMetrics are produced by ranging over countryStats.proxies itself, so
+// that every proxy type that is counted is published (a fixed list of type names
+// omits the types it does not name from the total); (b) the "nat" label of the
+// matched-poll counter is the polling proxy's NAT type; (c) ClusterWriter.AddIPToSet
+// adds the address to the current sketch on every path (the address that
+// triggers a flush belongs to the new chunk).
+func (c *Ctx) checkReportCoversAllTypes() {
+	p := c.P
+	rule := "O-1g every counted proxy is published"
+	pm := p.Fn("broker", "(*Metrics).printMetrics")
+	if pm != nil {
+		ranged := false
+		for _, fn := range helperFns(pm, 2) {
+			allInstrs(fn, func(in ssa.Instruction) {
+				if r, ok := in.(*ssa.Range); ok {
+					if _, f, okf := fieldLoad(r.X); okf && f.Name() == "proxies" {
+						ranged = true
+					}
+				}
+			})
+		}
+		c.check(ranged, rule, "printMetrics ranges over countryStats.proxies for the per-type lines and the total", p.Pos(pm.Pos()), "", "the per-type unique-address figures are not taken by iterating over the map of all types: addresses of a type that is not named explicitly are left out of snowflake-ips-total")
+	}
+	pp := p.Fn("broker", "(*IPC).ProxyPolls")
+	if pp != nil {
+		n := 0
+		for _, ci := range callsIn(pp) {
+			if calleeName(ci) != "(*broker.RoundedCounterVec).With" {
+				continue
+			}
+			if _, f, ok := fieldLoad(ci.Common().Args[0]); !ok || f.Name() != "ProxyPollTotal" {
+				continue
+			}
+			if st, ok := mapLiteralConstValue(ci.Common().Args[1], "status"); !ok || st != "matched" {
+				continue
+			}
+			n++
+			natV := mapLiteralValue(ci.Common().Args[1], "nat")
+			good := natV != nil && isResultOf(natV, 2, "common/messages.DecodeProxyPollRequestWithRelayPrefix", "common/messages.DecodeProxyPollRequest")
+			c.check(good, rule, "the matched-poll counter is labelled with the polling proxy's NAT type", p.instrPos(ci), "", "the nat label of ProxyPollTotal{status=matched} is not the NAT type decoded from this poll (the client's, for example): the series of the proxy's NAT type is published too low")
+		}
+		if n == 0 {
+			c.okTrivial(rule, "the matched-poll counter is labelled with the polling proxy's NAT type", p.Pos(pp.Pos()), "no ProxyPollTotal{status=matched} increment found: obligation not evaluated")
+		}
+	}
+	if add := p.Fn("common/ipsetsink/sinkcluster", "(*ClusterWriter).AddIPToSet"); add != nil && len(add.Params) == 2 {
+		path := escapesWithout(add.Blocks[0], func(in ssa.Instruction) bool {
+			ci, ok := in.(ssa.CallInstruction)
+			if !ok || !strings.HasSuffix(calleeName(ci), "IPSetSink).AddIPToSet") {
+				return false
+			}
+			return strip(ci.Common().Args[1]) == ssa.Value(add.Params[1])
+		})
+		c.check(path == nil, rule, "ClusterWriter.AddIPToSet records the address on every path", p.Pos(add.Pos()), "", "a path returns without adding the address to the current sketch (the address that triggers a flush is dropped): the first address of every chunk is missing from the journal", p.pathString(path)...)
+	}
 }
